@@ -1,13 +1,13 @@
 package harness
 
 import (
-	"strings"
 	"bytes"
 	"encoding/binary"
 	"fmt"
 	"math"
 	"math/rand/v2"
 	"net"
+	"strings"
 	"sync"
 	"time"
 
